@@ -1,8 +1,10 @@
 #!/bin/bash
-# runs every thorough tier once, sequentially; prints one summary line per check
+# runs the thorough tier of the given checks once, sequentially; prints one summary line per check
+# (TMO=<seconds> bounds each check; a timeout is reported as exit 124 and says nothing about the property)
+mkdir -p /tmp/wt
 for c in "$@"; do
   start=$(date +%s)
-  ./check $c --tier thorough > /tmp/thorough_$c.log 2>&1; rc=$?
-  echo "$c exit=$rc $(( $(date +%s) - start ))s  $(grep -c '^VIOLATION' /tmp/thorough_$c.log) violations; $(tail -1 /tmp/thorough_$c.log | cut -c1-200)"
-  grep '^VIOLATION' -A2 /tmp/thorough_$c.log | head -12
+  timeout ${TMO:-14400} ./check $c --tier thorough > /tmp/wt/thorough_$c.log 2>&1; rc=$?
+  echo "$c exit=$rc $(( $(date +%s) - start ))s  $(grep -c '^VIOLATION' /tmp/wt/thorough_$c.log) violations; $(tail -1 /tmp/wt/thorough_$c.log | cut -c1-200)"
+  grep '^VIOLATION' -A2 /tmp/wt/thorough_$c.log | head -12
 done
